@@ -120,6 +120,15 @@ def main(tier):
         texts.append((sp.text(), set(sp.author_vars())))
     for name, t in corpus.corpus():
         texts.append((t, author_vars(t)))
+    # an aggregate over an attribute NAME that two concepts of the sentence share (the variable invented for it must not join them)
+    for (a, b, attr) in (('task', 'machine', 'duration'), ('truck', 'dock', 'weight'), ('nurse', 'ward', 'level')):
+        for fn in ('total', 'highest'):
+            texts.append((f'A {a} is identified by an id, and has a {attr}.\nA {b} is identified by an id, and has a {attr}.\n'
+                          f'Every {a} can be assigned to exactly 1 {b}.\n'
+                          f'It is prohibited that the {fn} of {attr} that is assigned to a {a}, a {b} is more than 10.\n', set()))
+            texts.append((f'A {a} is identified by an id, and has a {attr}.\nA {b} is identified by an id, and has a {attr}.\n'
+                          f'Every {a} can be assigned to exactly 1 {b}.\n'
+                          f'It is prohibited that the {fn} {attr} of a {a} that is assigned to a {b} is more than 10.\n', set()))
     texts.sort(key=lambda x: -len(x[0]))
     results = rt.pmap(_job, texts, chunksize=1)
     nr = 0
@@ -132,7 +141,9 @@ def main(tier):
             run._distinct.add((r['text'], p['rule']))
             imgs = p['positions']
             key = 'join/' + '|'.join(f'{c}.{a}' for c, a in imgs)
-            run.violation('join/different-attributes' if len({a for _, a in imgs}) > 1 else 'join/different-concepts',
+            in_agg = bool(re.search(r'#(sum|count|max|min)\s*\{[^}]*\b' + re.escape(p['variable']) + r'\b', p['rule']))
+            run.violation(('join/different-attributes' if len({a for _, a in imgs}) > 1 else 'join/different-concepts')
+                          + ('/aggregated-attribute-name' if in_agg and len({a for _, a in imgs}) == 1 else ''),
                           f'invented variable {p["variable"]} joins positions {imgs} in {p["rule"]}',
                           {'cnl': r['text'], 'rule': p['rule'], 'variable': p['variable'], 'positions': imgs})
         for p in r['problems'][:0]:
